@@ -4,7 +4,10 @@ package main
 // indirection, integer width, float width, wrapper types), and of projected targets
 // (fields deleted, permuted, added). Also the read-direction generators (C03, C04).
 
-import "fmt"
+import (
+	"fmt"
+	"strings"
+)
 
 type tgen struct {
 	*wgen
@@ -176,6 +179,29 @@ func (g *tgen) structFor(s *asch) sx {
 		fs = append(fs, field(s.names[i], t))
 	}
 	if g.project {
+		// a Go field whose JSON name differs from a dropped schema field only in case must stay zero
+		present := map[string]bool{}
+		for _, f := range fs {
+			present[jsonNameOf(f)] = true
+		}
+		for i, nme := range s.names {
+			alt := strings.ToUpper(nme)
+			if alt == nme {
+				alt = strings.ToLower(nme)
+			}
+			inSchema := false
+			for _, o := range s.names {
+				if o == alt {
+					inSchema = true
+				}
+			}
+			if !present[nme] && !present[alt] && !inSchema && r.Intn(2) == 0 {
+				if t, ok := g.target(s.fields[i]); ok {
+					fs = append(fs, field(alt, t))
+					present[alt] = true
+				}
+			}
+		}
 		extra := r.Intn(3)
 		for i := 0; i < extra; i++ {
 			ts := []sx{A("bool"), tInt(64), tString, T("slice", tInt(32)), T("ptr", A("f64")), T("map", tString, tString)}
